@@ -402,37 +402,41 @@ Definition split_query (t : bytes) : bytes * bytes :=
 (* "?..." suffix re-attached to redirects: only when the query is not empty *)
 Definition query_suffix (q : bytes) : bytes := match q with [_] => [] | _ => q end.
 
+(* the handlers registered on the outer mux *)
+Definition top_handle (c : config) (host p rp qs : bytes) (h : top_h) (ms : list bytes) : resolved :=
+  match h with
+  | HSpecial k => Special k
+  | HHome => Redirect 302 (c_home c) hs0 true
+  | HLog e =>
+    strip_then (prefix_path (e_prefix e)) p rp hs0 (fun p' rp' => log_mux c (e_root e) [] host p' rp' qs)
+  | HWitOrigin e =>
+    let origin := nth 0 ms [] in
+    strip_then (prefix_path (e_prefix e) ++ x2f :: origin) p rp hs0
+      (fun p' rp' => log_mux c (e_root e) (x2f :: origin) host p' rp' qs)
+  | HWitMirror e =>
+    let origin := nth 0 ms [] in
+    strip_then (prefix_path (e_prefix e) ++ s2b "/mirror/" ++ origin) p rp hs0
+      (fun p' rp' => log_mux c (e_root e) (s2b "/mirror/" ++ origin) host p' rp' qs)
+  | HWitMeta e | HMirMeta e =>
+    strip_then (prefix_path (e_prefix e)) p rp hs_json (fun p' _ => file_server (e_root e) p' qs hs_json)
+  end.
+
+(* the outer mux, for a parsed URL *)
+Definition top_mux (c : config) (host p rp qs : bytes) : resolved :=
+  match mux_dispatch (top_patterns c) host p rp qs with
+  | MRedirect loc => Redirect 301 loc hs0 true
+  | MNotFound => NotFound hs0
+  | MFound h ms => top_handle c host p rp qs h ms
+  end.
+
 Definition route (c : config) (host : bytes) (target : bytes) : resolved :=
   match target with
   | x2f :: _ =>
     if has_ctl target then BadRequest else
     let '(raw, q) := split_query target in
-    let qs := query_suffix q in
     match set_path raw with
     | None => BadRequest
-    | Some (p, rp) =>
-      let host := strip_host_port host in
-      match mux_dispatch (top_patterns c) host p rp qs with
-      | MRedirect loc => Redirect 301 loc hs0 true
-      | MNotFound => NotFound hs0
-      | MFound h ms =>
-        match h with
-        | HSpecial k => Special k
-        | HHome => Redirect 302 (c_home c) hs0 true
-        | HLog e =>
-          strip_then (prefix_path (e_prefix e)) p rp hs0 (fun p' rp' => log_mux c (e_root e) [] host p' rp' qs)
-        | HWitOrigin e =>
-          let origin := nth 0 ms [] in
-          strip_then (prefix_path (e_prefix e) ++ x2f :: origin) p rp hs0
-            (fun p' rp' => log_mux c (e_root e) (x2f :: origin) host p' rp' qs)
-        | HWitMirror e =>
-          let origin := nth 0 ms [] in
-          strip_then (prefix_path (e_prefix e) ++ s2b "/mirror/" ++ origin) p rp hs0
-            (fun p' rp' => log_mux c (e_root e) (s2b "/mirror/" ++ origin) host p' rp' qs)
-        | HWitMeta e | HMirMeta e =>
-          strip_then (prefix_path (e_prefix e)) p rp hs_json (fun p' _ => file_server (e_root e) p' qs hs_json)
-        end
-      end
+    | Some (p, rp) => top_mux c (strip_host_port host) p rp (query_suffix q)
     end
   | _ => OutOfDomain
   end.
